@@ -1,8 +1,249 @@
+import RichModel.Model.Text
+import RichModel.Gen.CellWidths
 import RichModel.Drv.Proto
-/- Driver handlers for property C05 (stub: filled in when the model is built). -/
+/-
+Driver handlers for the Text model (property C05; reusable by C02 and the layout properties).
+
+Wire format (one field of a request / one answer line):
+  text   := plain ; length ; style ; spans ; justify ; overflow ; nowrap ; end ; tabsize
+  plain, end : space-separated code points            style : Nat (id; 0 is the null style "")
+  spans  := span/span/...   span := start,stop,style  (empty string = no spans)
+  justify: N d l c r f    overflow: N f c e i    nowrap: N 0 1    tabsize: N | Nat
+  list of texts := count#text|text|...
+  render := seg/seg/...   seg := codepoints~id id id   (`-` instead of the ids for the style-less end segment)
+  answer for one text  := ok:text@render | err:Name
+  answer for a list    := ok:count#text@render|...
+-/
 namespace RichModel.Drv.C05
 open RichModel RichModel.Proto
 
-def handlers : List (String × (List String → String)) := []
+abbrev T := Text Nat
+
+def cw : Char → Nat := charWidthT Gen.cellWidths
+
+def decInt? (s : String) : Option Int := s.toInt?
+def decNat? (s : String) : Option Nat := s.toNat?
+
+def decStr? (s : String) : Option (List Char) :=
+  if s.isEmpty then some [] else (s.splitOn " ").mapM (fun t => t.toNat?.map Char.ofNat)
+
+def decOptInt? (s : String) : Option (Option Int) := if s == "N" then some none else (decInt? s).map some
+def decOptNat? (s : String) : Option (Option Nat) := if s == "N" then some none else (decNat? s).map some
+
+def decSpan? (s : String) : Option (Span Nat) :=
+  match s.splitOn "," with
+  | [a, b, c] => do pure ⟨← decInt? a, ← decInt? b, ← decNat? c⟩
+  | _ => none
+
+def decSpans? (s : String) : Option (List (Span Nat)) :=
+  if s.isEmpty then some [] else (s.splitOn "/").mapM decSpan?
+
+def encSpans (l : List (Span Nat)) : String :=
+  "/".intercalate (l.map (fun sp => s!"{sp.start},{sp.stop},{sp.style}"))
+
+def decJustify? : String → Option (Option Justify)
+  | "N" => some none | "d" => some (some .default) | "l" => some (some .left) | "c" => some (some .center)
+  | "r" => some (some .right) | "f" => some (some .full) | _ => none
+def encJustify : Option Justify → String
+  | none => "N" | some .default => "d" | some .left => "l" | some .center => "c" | some .right => "r" | some .full => "f"
+def decOverflow? : String → Option (Option Overflow)
+  | "N" => some none | "f" => some (some .fold) | "c" => some (some .crop) | "e" => some (some .ellipsis)
+  | "i" => some (some .ignore) | _ => none
+def encOverflow : Option Overflow → String
+  | none => "N" | some .fold => "f" | some .crop => "c" | some .ellipsis => "e" | some .ignore => "i"
+def decOptBool? : String → Option (Option Bool)
+  | "N" => some none | "0" => some (some false) | "1" => some (some true) | _ => none
+def encOptBool : Option Bool → String
+  | none => "N" | some false => "0" | some true => "1"
+def encOptNatN : Option Nat → String
+  | none => "N" | some n => toString n
+
+def decText? (s : String) : Option T :=
+  match s.splitOn ";" with
+  | [pl, len, st, sps, j, o, nw, e, ts] => do
+    pure { plain := ← decStr? pl, length := ← decInt? len, style := ← decNat? st, spans := ← decSpans? sps,
+           justify := ← decJustify? j, overflow := ← decOverflow? o, noWrap := ← decOptBool? nw,
+           endStr := ← decStr? e, tabSize := ← decOptNat? ts }
+  | _ => none
+
+def encText (t : T) : String :=
+  ";".intercalate [encStr t.plain, toString t.length, toString t.style, encSpans t.spans,
+    encJustify t.justify, encOverflow t.overflow, encOptBool t.noWrap, encStr t.endStr, encOptNatN t.tabSize]
+
+def decTexts? (s : String) : Option (List T) :=
+  match s.splitOn "#" with
+  | [n, body] => if n == "0" then some [] else (body.splitOn "|").mapM decText?
+  | _ => none
+
+def encErr : PyErr → String
+  | .indexError => "err:IndexError" | .typeError => "err:TypeError" | .valueError => "err:ValueError"
+  | .assertionError => "err:AssertionError" | .zeroDivisionError => "err:ZeroDivisionError"
+  | .keyError => "err:KeyError" | .runtimeError => "err:RuntimeError"
+
+def encRender (r : Except PyErr (List (Text.RSeg Nat))) : String :=
+  match r with
+  | .error e => encErr e
+  | .ok segs => "/".intercalate (segs.map (fun s =>
+      encStr s.text ++ "~" ++ (match s.styles with
+        | none => "-"
+        | some ids => " ".intercalate (ids.map toString))))
+
+/-- a text together with what `render` gives for it -/
+def encTR (t : T) : String := encText t ++ "@" ++ encRender (t.render)
+
+def ansText (r : Except PyErr T) : String :=
+  match r with
+  | .ok t => "ok:" ++ encTR t
+  | .error e => encErr e
+
+def ansTexts (r : Except PyErr (List T)) : String :=
+  match r with
+  | .ok l => "ok:" ++ toString l.length ++ "#" ++ "|".intercalate (l.map encTR)
+  | .error e => encErr e
+
+def decVariant? (s : String) : Option Variant :=
+  match s.toList with
+  | [a, b, c, d, e] => some ⟨a == '1', b == '1', c == '1', d == '1', e == '1'⟩
+  | _ => none
+
+/-- negative `_length` (only reachable through the `right_crop` defect) is outside the modelled domain -/
+def okState (t : T) : Bool := t.length ≥ 0
+
+def decChar? (s : String) : Option Char := (decNat? s).map Char.ofNat
+
+def decOptStyle? (s : String) : Option (Option Nat) := decOptNat? s
+
+def decTokens? (s : String) : Option (List (List Char × Option Nat)) :=
+  match s.splitOn ":" with
+  | [n, body] =>
+    if n == "0" then some [] else (body.splitOn ",").mapM (fun tok =>
+      match tok.splitOn "~" with
+      | [c, st] => do pure (← decStr? c, ← decOptStyle? st)
+      | _ => none)
+  | _ => none
+
+def decPart? (s : String) : Option (Text.Part Nat) :=
+  match s.toList with
+  | 'S' :: rest => (decStr? (String.ofList rest)).map Text.Part.str
+  | 'T' :: rest => (decText? (String.ofList rest)).map Text.Part.txt
+  | 'P' :: rest =>
+    match (String.ofList rest).splitOn "~" with
+    | [c, st] => do pure (Text.Part.pair (← decStr? c) (← decOptStyle? st))
+    | _ => none
+  | _ => none
+
+def decParts? (s : String) : Option (List (Text.Part Nat)) :=
+  match s.splitOn "#" with
+  | [n, body] => if n == "0" then some [] else (body.splitOn "|").mapM decPart?
+  | _ => none
+
+def decNats? (s : String) : Option (List Nat) :=
+  if s.isEmpty then some [] else (s.splitOn " ").mapM decNat?
+
+def decAlign? : String → Option AlignMethod
+  | "l" => some .left | "c" => some .center | "r" => some .right | _ => none
+
+def orUnmodelled (o : Option String) : String := o.getD "unmodelled"
+
+/-- every handler: first argument the variant flags, second the text operated on -/
+def h1 (f : Variant → T → List String → Option String) : List String → String
+  | v :: t :: rest => orUnmodelled do
+    let v ← decVariant? v
+    let t ← decText? t
+    if !okState t then none else f v t rest
+  | _ => "bad-args"
+
+def handlers : List (String × (List String → String)) := [
+  ("text_new", h1 fun v t _ =>
+    some (ansText (.ok (Text.new v t.plain t.style t.spans t.justify t.overflow t.noWrap t.endStr t.tabSize)))),
+  ("text_copy", h1 fun v t _ => some (ansText (.ok (t.copy v)))),
+  ("text_blank_copy", h1 fun v t _ => some (ansText (.ok (t.blankCopy v)))),
+  ("text_stylize", h1 fun v t a => match a with
+    | [st, s, e] => do pure (ansText (.ok (t.stylize v (← decNat? st) (← decInt? s) (← decOptInt? e))))
+    | _ => none),
+  ("text_add_spans", h1 fun _ t a => match a with
+    | [sps] => do pure (ansText (.ok (t.addSpans (← decSpans? sps))))
+    | _ => none),
+  ("text_copy_styles", h1 fun _ t a => match a with
+    | [u] => do pure (ansText (.ok (t.copyStyles (← decText? u))))
+    | _ => none),
+  ("text_append_str", h1 fun _ t a => match a with
+    | [s, st] => do pure (ansText (.ok (t.appendStr (← decStr? s) (← decOptStyle? st))))
+    | _ => none),
+  ("text_append_t", h1 fun _ t a => match a with
+    | [u, st] => do
+      let u ← decText? u
+      if !okState u then none else pure (ansText (t.appendTStyled u (← decOptStyle? st)))
+    | _ => none),
+  ("text_append_text", h1 fun _ t a => match a with
+    | [u] => do
+      let u ← decText? u
+      if !okState u then none else pure (ansText (.ok (t.appendText u)))
+    | _ => none),
+  ("text_append_tokens", h1 fun _ t a => match a with
+    | [toks] => do pure (ansText (.ok (t.appendTokens (← decTokens? toks))))
+    | _ => none),
+  ("text_assemble", h1 fun v t a => match a with     -- `t` carries the style / meta keyword arguments
+    | [parts] => do
+      let ps ← decParts? parts
+      if ps.any (fun p => match p with | .txt u => !okState u | _ => false) then none
+      else pure (ansText (.ok (Text.assemble v ps t.style t.justify t.overflow t.noWrap t.endStr t.tabSize)))
+    | _ => none),
+  ("text_join", h1 fun v t a => match a with
+    | [ls] => do
+      let ls ← decTexts? ls
+      if ls.any (fun u => !okState u) then none else pure (ansText (.ok (t.join v ls)))
+    | _ => none),
+  ("text_divide", h1 fun v t a => match a with
+    | [offs] => do pure (ansTexts (t.divide v (← decNats? offs)))
+    | _ => none),
+  ("text_split", h1 fun v t a => match a with
+    | [sep, incl, blank] => do pure (ansTexts (t.split v (← decStr? sep) (decBool incl) (decBool blank)))
+    | _ => none),
+  ("text_get_item", h1 fun v t a => match a with
+    | [i] => do pure (ansText (t.getItem v 0 (← decInt? i)))
+    | _ => none),
+  ("text_get_slice", h1 fun v t a => match a with
+    | [s, e] => do pure (ansText (t.getSlice v (← decOptInt? s) (← decOptInt? e)))
+    | _ => none),
+  ("text_pad", h1 fun _ t a => match a with
+    | [n, c] => do pure (ansText (.ok (t.pad (← decInt? n) (← decChar? c))))
+    | _ => none),
+  ("text_pad_left", h1 fun _ t a => match a with
+    | [n, c] => do pure (ansText (.ok (t.padLeft (← decInt? n) (← decChar? c))))
+    | _ => none),
+  ("text_pad_right", h1 fun _ t a => match a with
+    | [n, c] => do pure (ansText (.ok (t.padRight (← decInt? n) (← decChar? c))))
+    | _ => none),
+  ("text_right_crop", h1 fun v t a => match a with
+    | [n] => do
+      let r := t.rightCrop v (← decInt? n)
+      pure (if r.length < 0 then "ok:" ++ encText r ++ "@neg" else ansText (.ok r))
+    | _ => none),
+  ("text_set_length", h1 fun v t a => match a with
+    | [n] => do
+      let r := t.setLength v (← decInt? n)
+      pure (if r.length < 0 then "ok:" ++ encText r ++ "@neg" else ansText (.ok r))
+    | _ => none),
+  ("text_rstrip", h1 fun _ t _ => some (ansText (.ok t.rstrip))),
+  ("text_rstrip_end", h1 fun v t a => match a with
+    | [n] => do pure (ansText (.ok (t.rstripEnd v (← decInt? n))))
+    | _ => none),
+  ("text_set_plain", h1 fun _ t a => match a with
+    | [s] => do pure (ansText (.ok (t.setPlain (← decStr? s))))
+    | _ => none),
+  ("text_truncate", h1 fun _ t a => match a with
+    | [w, ov, pad] => do pure (ansText (.ok (t.truncate cw (← decInt? w) (← decOverflow? ov) (decBool pad))))
+    | _ => none),
+  ("text_align", h1 fun _ t a => match a with
+    | [m, w, c] => do pure (ansText (.ok (t.align cw (← decAlign? m) (← decInt? w) (← decChar? c))))
+    | _ => none),
+  ("text_expand_tabs", h1 fun v t a => match a with
+    | [ts] => do pure (ansText (t.expandTabs v (← decOptNat? ts)))
+    | _ => none),
+  ("text_render", h1 fun _ t a => match a with
+    | [e] => do pure (encRender (t.render (← decStr? e)))
+    | _ => none)
+]
 
 end RichModel.Drv.C05
